@@ -41,8 +41,14 @@ fn strat_from(v: &Value, seed: u64) -> Strat {
     s.max_spurious = v.get("max_spurious").and_then(|x| x.as_u64()).unwrap_or(2) as u32;
     s.parallelism = v.get("parallelism").and_then(|x| x.as_u64()).unwrap_or(if (mix >> 40) % 4 == 0 { 1 } else { 16 });
     if let Some(fr) = v.get("freeze").and_then(|x| x.as_array()) {
-        if fr.len() == 2 {
+        if fr.len() >= 2 {
             s.freeze = Some((fr[0].as_u64().unwrap_or(0) as usize, fr[1].as_u64().unwrap_or(0)));
+        }
+        if fr.len() >= 3 {
+            s.freeze_from = fr[2].as_u64().unwrap_or(0) as u32;
+        }
+        if fr.len() >= 4 {
+            s.freeze_solo = fr[3].as_u64().unwrap_or(0) == 1;
         }
     }
     if let Some(sc) = v.get("script").and_then(|x| x.as_array()) {
@@ -54,6 +60,7 @@ fn strat_from(v: &Value, seed: u64) -> Strat {
         s.tick_phase = 1000;
     }
     s.tick_phase = v.get("tick_phase").and_then(|x| x.as_u64()).unwrap_or(0) as u32;
+    s.tick_after = v.get("tick_after").and_then(|x| x.as_u64()).unwrap_or(40) as u32;
     s.max_steps = v.get("max_steps").and_then(|x| x.as_u64()).unwrap_or(100_000);
     s
 }
